@@ -99,7 +99,9 @@ Proof. exact foreign_ignored. Qed.
 
 Require Import FL.Flw.Run FL.Flw.NumInv FL.Flw.NumRun FL.Flw.NumTheorems FL.Flw.NumCleanupNames FL.Flw.NumCleanupStep FL.Flw.NumCleanupRun FL.Flw.NumCleanup FL.Flw.ForeignFs FL.Flw.ForeignSort FL.Flw.ForeignModel FL.Flw.NumForeign FL.Flw.NumCleanupForeign FL.Oracles.O_Flw.
 (* END TO END non-interference, Numbers naming, EVERY history of a run: with arbitrary foreign files in the directory (names that the
-   family test rejects: num_member c n = false - this covers near misses like a_r00001.log.bak, a_rx.log, ax_r00001.log) the
+   family test rejects: num_member c n = false - this covers near misses like a_r00001.log.bak, a_rx.log, ax_r00001.log, and, since
+   the repair of the number filter, a_r1x.log, a_r1backup.log, a_r00001x.log, a_r2024-02-29_23-59-58.log: num_member accepts exactly
+   the names of the pattern <fixed>_r<digits>[.restart-NNNN][.suffix][.gz] and the rCURRENT file, C14_num_member_pattern below) the
    logger's observations are those of the run in the empty directory (snapshots modulo the foreign entries), every foreign file is
    unchanged, and all other names and contents are exactly those of the run in the empty directory *)
 Theorem C14_numbers_foreign_ignored c crit t0 off foreign ops :
@@ -197,8 +199,10 @@ Theorem C14_numbersdirect_stream_foreign c crit t0 off foreign ops :
     /\ concat files = written ops.
 Proof. exact (numbersdirect_stream_foreign c crit t0 off foreign ops). Qed.
 
-(* TimestampsDirect naming: foreign = tsd_member rejects the name: no infix is extracted from it, or one that neither the
-   time-stamp filter nor the number filter accepts - as a plain file, as an archive, and with ".gz" removed *)
+(* TimestampsDirect naming: foreign = tsd_member rejects the name: no infix is extracted from it, or one that the time-stamp
+   filter does not accept - as a plain file, as an archive, and with ".gz" removed.  (Before the repair of
+   latest_timestamp_file the test had to accept what the number filter accepted, too; now a file with a number infix -
+   a_r00001.log, a_r1x.log - is foreign for the time-stamp namings: C14_number_files_foreign_ts below.) *)
 Theorem C14_timestampsdirect_foreign_ignored c crit t0 off foreign ops :
   tsdcfg c crit -> tag_ok c -> Forall basic_op ops -> Forall tick_ok ops ->
   (0 <= t0 + ts_e c off)%Z -> (t0 + elapsed ops + ts_e c off < sec_max)%Z -> (N.of_nat (length ops) <= usize_max)%N ->
@@ -275,3 +279,74 @@ Print Assumptions C14_timestamps_foreign_ignored.
 Check C14_timestamps_stream_foreign.
 Print Assumptions C14_timestamps_stream_foreign.
 Print Assumptions C14_ts_member_shape.
+
+(* ------------------------------------------------------------------ "foreign" = "does not follow the naming pattern" *)
+Require Import FL.Flw.NumListing FL.Flw.CleanupFacts FL.Time.TsFormat FL.Flw.MemberPattern.
+(* The member tests in the hypotheses above accept EXACTLY the names of the logger's own naming pattern: the configured name
+   parts, an infix of the ACTIVE naming - "r" and one or more digits, nothing else, for the number namings; what chrono reads
+   as r%Y-%m-%d_%H-%M-%S for the time-stamp namings -, optionally a restart counter, the configured suffix, optionally ".gz"
+   (the archive of a file with the suffix "gz" has no second ".gz"); or the rCURRENT file where the naming has one. *)
+Theorem C14_num_member_pattern c n :
+  num_member c n = true <->
+  n = cname c \/
+  exists ds rs gz, ds <> [] /\ all_digits ds = true /\ restart_part rs
+    /\ (gz = [] \/ (gz = dot_gz /\ fsfx (c_spec c) <> Some gz_sfx))
+    /\ n = under (fixed0 c) ++ r_char :: ds ++ rs ++ sfxs (c_spec c) ++ gz.
+Proof. exact (num_member_iff c n). Qed.
+
+Theorem C14_numd_member_pattern c n :
+  numd_member c n = true <->
+  exists ds rs gz, ds <> [] /\ all_digits ds = true /\ restart_part rs
+    /\ (gz = [] \/ (gz = dot_gz /\ fsfx (c_spec c) <> Some gz_sfx))
+    /\ n = under (fixed0 c) ++ r_char :: ds ++ rs ++ sfxs (c_spec c) ++ gz.
+Proof. exact (numd_member_iff c n). Qed.
+
+Theorem C14_tsd_member_pattern c n :
+  tsd_member c n = true <->
+  exists i rs gz, parse_ts_local std_fmt i <> None /\ no_dot i /\ restart_part rs /\ (gz = [] \/ gz = dot_gz)
+    /\ n = under (fixed0 c) ++ i ++ rs ++ sfxs (c_spec c) ++ gz.
+Proof. exact (tsd_member_iff c n). Qed.
+
+Theorem C14_ts_member_pattern c n :
+  ts_member c n = true <->
+  n = cname c \/
+  exists i rs gz, parse_ts_local std_fmt i <> None /\ no_dot i /\ restart_part rs /\ (gz = [] \/ gz = dot_gz)
+    /\ n = under (fixed0 c) ++ i ++ rs ++ sfxs (c_spec c) ++ gz.
+Proof. exact (ts_member_iff c n). Qed.
+
+(* a name with anything but digits between "<fixed>_r" and the first dot is foreign for the number namings *)
+Theorem C14_num_foreign_non_digit c rest :
+  (upto_dot rest = [] \/ all_digits (upto_dot rest) = false) ->
+  under (fixed0 c) ++ r_char :: rest <> cname c ->
+  num_member c (under (fixed0 c) ++ r_char :: rest) = false.
+Proof. exact (num_foreign_non_digit c rest). Qed.
+
+(* the infix of the OTHER naming is foreign: the numbered files are foreign for a logger with a time-stamp naming, the
+   time-stamped files are foreign for a logger with a number naming (same name parts, same suffix) *)
+Theorem C14_number_files_foreign_ts c n : numd_member c n = true -> ts_member c n = false.
+Proof. exact (number_files_foreign_ts c n). Qed.
+Theorem C14_ts_files_foreign_number c n : tsd_member c n = true -> num_member c n = false.
+Proof. exact (ts_files_foreign_number c n). Qed.
+
+Print Assumptions C14_num_member_pattern.
+Print Assumptions C14_numd_member_pattern.
+Print Assumptions C14_tsd_member_pattern.
+Print Assumptions C14_ts_member_pattern.
+Print Assumptions C14_num_foreign_non_digit.
+Print Assumptions C14_number_files_foreign_ts.
+Print Assumptions C14_ts_files_foreign_number.
+
+(* non-vacuity: the names that the code took for the logger's own before the two repairs are foreign now, for the number
+   namings (a letter, a word behind the number, a time-stamp infix) and for the time-stamp namings (a number infix, a
+   time stamp and a letter); the runs with such files in the directory: NumForeign.near_miss_not_member,
+   NumDForeign.near_miss_not_member_d, NumCleanupForeign.cleanup_foreign_instance_dir, TsdForeign.number_infix_foreign_td,
+   TsForeign.number_infix_foreign_t *)
+Import String.StringSyntax.
+Example C14_repaired_names_foreign :
+  let names := List.map bs ["a_r1x.log"; "a_r1backup.log"; "a_r00001x.log"; "a_r2024-02-29_23-59-58.log"]%string in
+  let tnames := List.map bs ["a_r00001.log"; "a_r1x.log"; "a_r00001.log.gz"; "a_r2030-01-01_00-00-00x.log"]%string in
+  List.map (num_member ex_c) names = [false; false; false; false]
+  /\ List.map (numd_member exdf_c) names = [false; false; false; false]
+  /\ List.map (tsd_member extd_c) tnames = [false; false; false; false]
+  /\ List.map (ts_member extf_c) tnames = [false; false; false; false].
+Proof. vm_compute. repeat split; reflexivity. Qed.
